@@ -73,7 +73,10 @@ def parse_demo(src, wt):
         pkg = pk.group(1).rstrip("/").rstrip(".") if pk else ""
         pkg = re.sub(r"/\.\.\.$", "", pkg)
         mod = None
-        for cand in (ENGINE, TOOLKIT, "proxy/src/libs/shared-model", "proxy/src/services/aggregation-output-plugin"):
+        cdm = re.search(r"\bcd\s+(\S+)\s*&&", line)
+        if cdm and pkg and os.path.isdir(os.path.join(wt, cdm.group(1).rstrip("/"), pkg)):
+            mod = cdm.group(1).rstrip("/")
+        for cand in () if mod else (ENGINE, TOOLKIT, "proxy/src/libs/shared-model", "proxy/src/services/aggregation-output-plugin"):
             if os.path.isdir(os.path.join(wt, cand, pkg)) and pkg:
                 mod = cand
                 break
